@@ -98,6 +98,8 @@ impl Vocab {
             0 => w.to_uppercase(),
             1 => { let mut c = w.chars(); match c.next() { Some(f) => f.to_uppercase().collect::<String>() + c.as_str(), None => String::new() } }
             2 => decompose(w),
+            // non-alphanumeric edge characters that are not separators: they stay in the split word and are stripped
+            3 => { let (a, b) = *r.pick(&[("\"", "\""), ("", "++"), ("[", "]"), ("'", ""), ("", "%"), ("#", ""), ("*", "*"), ("$", "")]); format!("{}{}{}", a, w, b) }
             _ => w.to_string(),
         }
     }
